@@ -98,10 +98,22 @@ def _run(cmd, cwd=None, timeout=3600, inp=None):
 
 
 def lake_build(targets, clean=False):
-    """build the given lake targets; returns (ok, output)"""
-    if clean:
-        _run(["lake", "clean"], cwd=LEAN)
-    rc, out = _run(["lake", "build"] + list(targets), cwd=LEAN, timeout=7200)
+    """build the given lake targets; returns (ok, output).
+    Builds are serialised across processes (several checks started at once on a fresh checkout would otherwise run `lake build` in
+    one directory at the same time; seen in a parallel thorough run: three checks reported "lake build failed" although every file
+    compiles). A failed build is repeated once under the lock before it is believed."""
+    import fcntl
+    lock_path = os.path.join(LEAN, ".verif-build.lock")
+    with open(lock_path, "w") as lock:
+        fcntl.flock(lock, fcntl.LOCK_EX)
+        try:
+            if clean:
+                _run(["lake", "clean"], cwd=LEAN)
+            rc, out = _run(["lake", "build"] + list(targets), cwd=LEAN, timeout=7200)
+            if rc != 0:
+                rc, out = _run(["lake", "build"] + list(targets), cwd=LEAN, timeout=7200)
+        finally:
+            fcntl.flock(lock, fcntl.LOCK_UN)
     return rc == 0, out
 
 
